@@ -138,6 +138,9 @@ def run(repo, tier):
     run_unravel(repo, res, {m for m in repo.modules if '.tests' not in m and 'extern' not in m})
     run_slice_kind(repo, res, {m for m in repo.modules if '.tests' not in m and 'extern' not in m})
     res.floor('SLICE-KIND', 15)
+    # the property goes through BoundingBox.from_float / get_overlap_slices: C01's rules for them are its rules too
+    from .C01 import bbox_rules as _c01_bbox_rules
+    _c01_bbox_rules(repo, res)
     from .common import run_generic_pack
     run_generic_pack(repo, res, PROP, MODS)
     return res
